@@ -363,7 +363,7 @@ def h_filters(ctx):
     """iter_segments(type=NAME), iter_sections(type=NAME), Dynamic.iter_tags(type=NAME): asking for the name under which an entry is REPORTED selects
     exactly the entries reported under that name - for every code of the field the registries name in this processor / OS context (one file
     holding one program header, one section and one dynamic entry per code)."""
-    from harness.elfkit import Image
+    from harness.elfkit import Image, open_elf
     from harness import c01 as C1
     from spec import elf_layout as L
     cfg = ctx.cfg
@@ -396,7 +396,7 @@ def h_filters(ctx):
     img.add_shstrtab()
     for i, c in enumerate(pcodes):
         img.segment(p_type=c, p_offset=dynoff if c == 2 else zoff, p_vaddr=i, p_filesz=(len(dcodes) + 1) * dynsz if c == 2 else 32)
-    elf = EF.ELFFile(ctx.stream(img.build()))
+    elf = open_elf(ctx, img.build())
     ctx.outcome('ok')
     where = '%s/%s' % (machine, osabi)
     # segments
